@@ -371,13 +371,29 @@ def make_cs(cfg, defs_text=None):
 
 # ---------------------------------------------------------------- data
 
-def gen_bytes(rng: random.Random, n: int) -> bytes:
+def has_null_terminated(defs) -> bool:
+    def walk(sd):
+        for f in sd["fields"]:
+            if "" in f["dims"]:
+                return True
+            if f["inline"] is not None and walk(f["inline"]):
+                return True
+        return False
+    return any(walk(s) for s in defs["structs"])
+
+
+def gen_bytes(rng: random.Random, n: int, long_runs: bool = False) -> bytes:
     """Biased bytes: small values dominate so lengths stay small, terminators appear and LEB128 ends."""
     mode = rng.random()
+    if long_runs and rng.random() < 0.5:
+        mode = 0.99
     out = bytearray()
     for _ in range(n):
         r = rng.random()
-        if mode < 0.15:
+        if mode > 0.93:
+            # long runs without terminators: null-terminated strings/arrays of 64+ elements, block-wise scanners
+            out.append(0 if r < 0.006 else rng.randrange(0x21, 0x7F))
+        elif mode < 0.15:
             out.append(rng.randrange(256))
         elif r < 0.35:
             out.append(0)
@@ -393,14 +409,14 @@ def gen_bytes(rng: random.Random, n: int) -> bytes:
 INTERNAL_ERRORS = ("UnboundLocalError", "AttributeError", "NameError", "TypeError", "KeyError", "IndexError", "error", "AssertionError")
 
 
-def accepted_input(rng, parse, tries=4, start_len=48, stats=None):
+def accepted_input(rng, parse, tries=4, start_len=48, stats=None, long_runs=False):
     """Find bytes the fault-free reference parse accepts. parse(data) -> consumed length or raises.
     Returns (data, consumed) or None. Inputs the reference rejects are outside the domain of the differential checks; when
     the rejection looks like an internal error rather than bad data it is counted as a reach probe so that it shows in the
     evidence instead of silently shrinking the domain."""
     n = start_len
     for _ in range(tries):
-        data = gen_bytes(rng, n)
+        data = gen_bytes(rng, n, long_runs)
         try:
             used = parse(data)
             return data, used
